@@ -12,7 +12,8 @@ From AV Require Import Base.Bytes Base.Outcome Hash.HashModel Tree.Heap Tree.Ops
   Tree.CopyProofsDefs Tree.CopyProofsDeep Tree.CopyProofsCreate Tree.CopyProofsTop Tree.CopyProofsBridge
   Tree.CopyProofsTiny Tree.Frame Tree.CopyProofsReg Tree.CopyProofsFK Tree.CopyProofsDup Tree.CopyProofsRegId.
 From AV Require Import Tree.Serialize Tree.Script2 Tree.CopyProofsIrp Tree.CopyProofsIndep Tree.CopyProofsIndep2
-  Tree.CopyProofsTwo Tree.CopyProofsUnique Tree.CopyProofsText Tree.CopyProofsBound.
+  Tree.CopyProofsTwo Tree.CopyProofsUnique Tree.CopyProofsText Tree.CopyProofsBound Tree.CopyProofsDupText
+  Tree.CopyProofsDupAll.
 Open Scope list_scope.
 Open Scope N_scope.
 
@@ -460,4 +461,79 @@ Theorem C13_duplicate_then_independent_histories :
   two_indep T tab_el tab_at tab_en check_fn float_parse float_fmt LATEST name_index name_definition_ref
             attr_schema_location root_attrs l (after_dup w0 w1) w1.
 Proof. exact duplicate_then_independent_histories. Qed.
+
+(* ================================================================== the text of a duplicate *)
+
+(* NO RENAMING (1): the name search keeps a name that is free in the destination's index — in a fresh model the index
+   is empty, so the first copy of every name keeps it *)
+Theorem C13_duplicate_no_rename : forall T i m pp w n orig x,
+  w_nodes w i = Some n -> item_name T n w = Val (OK (Some orig), w) ->
+  nth_opt (w_models w) (N.to_nat m) = Some x -> assoc_get (pp ++ [47] ++ orig) (m_idents x) = None ->
+  make_unique_item_name T i m pp w = Val (OK orig, w).
+Proof. exact make_unique_free. Qed.
+
+(* NO RENAMING (2): a copy of an element whose type is not named (no SHORT-NAME: the sub-elements of the AUTOSAR root)
+   is never renamed: nothing but the destination and the copy's parent link differs from the world right after
+   deep_copy *)
+Theorem C13_copy_unnamed_no_rename : forall T w1 w' h c,
+  CopyRel T w1 w' h c ->
+  (forall nc1, w_nodes w1 c = Some nc1 -> SpecOps.is_named T (n_type nc1) = Val false) ->
+  forall i, i <> h -> i <> c -> w_nodes w' i = w_nodes w1 i.
+Proof. exact no_rename_unnamed. Qed.
+
+(* the two pre-order walks of duplicate()'s third loop are aligned on trees that are equal up to node ids: a predicate
+   that holds of the zipped walks holds of every pair of corresponding elements (IsoP) *)
+Theorem C13_walks_aligned : forall P wa wb f s c l l' wa' wb',
+  Iso wa wb s c -> dfs_ids f s wa = Val (OK l, wa') -> dfs_ids f c wb = Val (OK l', wb') ->
+  Forall2 P l l' -> IsoP P wa wb s c.
+Proof. exact dfs_isoP. Qed.
+
+(* the translation of a local file set through the file map is faithful when the map treats its files alike
+   (MapsAlike: every file has a record, its name is mapped, and it is mapped to nf exactly when it is f) *)
+Theorem C13_translate_faithful : forall w fm f nf fs,
+  MapsAlike w fm f nf fs -> passes_fs (Some f) fs = passes_fs (Some nf) (translate_files w fm fs).
+Proof. exact translate_ok. Qed.
+
+(* the LAST phase of duplicate() in general (any number of root sub-elements, split models): from roots that are equal
+   up to node ids, disjoint trees and a pre-order walk of the copy without repetition, file f of the original and file
+   nf of the copy have the same text whenever the file map treats the local file set of every sub-element alike *)
+Theorem C13_duplicate_tail_text : forall T tab_el tab_at tab_en float_fmt fm root croot w4 r w' f nf,
+  Iso w4 w4 root croot ->
+  (forall x y, Sub w4 root x -> Sub w4 croot y -> x <> y) ->
+  (forall l, dfs_ids (fuel_of w4) croot w4 = Val (OK l, w4) -> NoDup l) ->
+  (do w <- wget; do oids <- dfs_ids (fuel_of w) root; do cids <- dfs_ids (fuel_of w) croot;
+   dup_membership fm oids cids)%W w4 = Val (OK r, w') ->
+  (forall p pn o on, Sub w4 root p -> w_nodes w4 p = Some pn -> In (CElem o) (n_content pn) -> w_nodes w4 o = Some on ->
+     MapsAlike w4 fm f nf (n_files on)) ->
+  forall fuel indent inline,
+    ser_heap T tab_el tab_at tab_en float_fmt fuel w' (Some f) root indent inline =
+    ser_heap T tab_el tab_at tab_en float_fmt fuel w' (Some nf) croot indent inline.
+Proof. exact duplicate_tail_text. Qed.
+
+(* DUPLICATE TEXT, end to end.  In a world with C03's Core, duplicate() of model m succeeds with result world w'.
+   Scope: the original's root is as AutosarModel::new makes it (name and type of the AUTOSAR element) and has ONE
+   sub-element e, of a type that is not named (AUTOSAR: AR-PACKAGES); e is valid (AllValidIn) in LATEST and in every
+   version a file of the result has — for a single-version model at most two versions —; the model is not split: every
+   sub-element below the root inherits its file membership (empty local set).  Then in the result the text written
+   for ANY file filter f below the original's root and the text written for ANY file filter nf below the copy's root
+   (node w_next w) are the same bytes: every file of the copy has the text of every file of the original.
+   Not covered (oracle DUP-TEXT only): several root sub-elements (insert positions), split models (C13_duplicate_tail_text
+   covers the last phase; the file map of dup_files is not characterised), the header line and schemaLocation written
+   by ArxmlFile::serialize around this text *)
+Theorem C13_duplicate_text :
+  forall T tab_el tab_at tab_en check_fn float_fmt LATEST root_attrs m w c w' x rn e ed,
+  Core w ->
+  m_duplicate T tab_el tab_en check_fn LATEST root_attrs m w = Val (OK c, w') ->
+  nth_opt (w_models w) (N.to_nat m) = Some x -> w_nodes w (m_root x) = Some rn ->
+  SpecOps.et_new T (SpecOps.autosar_element T) = Val (n_type rn) ->
+  SpecOps.elem T (SpecOps.autosar_element T) = Val ed -> ed_name ed = n_name rn ->
+  n_content rn = [CElem e] ->
+  (forall en, w_nodes w e = Some en -> SpecOps.is_named T (n_type en) = Val false) ->
+  (forall v, (v = LATEST \/ exists f fl, nth_opt (w_files w') (N.to_nat f) = Some fl /\ f_version fl = v) -> AllValidIn T v w e) ->
+  (forall p pn o on, Sub w (m_root x) p -> w_nodes w p = Some pn -> In (CElem o) (n_content pn) -> w_nodes w o = Some on ->
+     n_files on = []) ->
+  forall f nf fuel indent inline,
+    ser_heap T tab_el tab_at tab_en float_fmt fuel w' (Some f) (m_root x) indent inline =
+    ser_heap T tab_el tab_at tab_en float_fmt fuel w' (Some nf) (w_next w) indent inline.
+Proof. exact duplicate_text_top. Qed.
 
